@@ -125,8 +125,23 @@ def runChecker (c : CheckerCase) : Json :=
   let (r, s') := if c.async then callAsync ck o c.inProgress call else callSync ck o c.inProgress call
   let kw := kwargsFromCall ck.paramNames ck.kwdefaults call.args call.kwargs
   let allPre := ck.pre.flatMap id
-  let dnf : Bool := ck.pre.isEmpty || ck.pre.any (fun g => g.all (condTruthy o kw))
-  let total : Bool := allPre.all (fun c => condTruthy o kw c || condFalsy o kw c)
+  let dnf : Bool := ck.pre.isEmpty || ck.pre.any (fun g => g.all (condTruthy c.async o kw))
+  let total : Bool := allPre.all (fun x => condTruthy c.async o kw x || condFalsy c.async o kw x)
+  let callOk : Bool := (assertNoInvalidKwargs c.kwargs).isNone
+      && (assertResolvedKwargsValid (!ck.posts.isEmpty) kw).isNone && !c.inProgress.contains c.fid
+  let expectedErr : Json :=
+    if !dnf && total then
+      match ck.pre.getLast? with
+      | some g => match firstFalsy c.async o kw g with
+        | some fc => match errorOf o fc with
+          | some e => raisedJson e
+          | none => Json.null
+        | none => Json.null
+      | none => Json.null
+    else Json.null
+  let falsyErr : Bool := (allPre ++ ck.posts).any (fun c => match errorOf o c with | some e => !e.truthy | none => false)
+  let capTotal : Bool := ck.snaps.all (captureTotal c.async o kw)
+  let errNotTotal : Bool := allPre.any (fun c => (errorOf o c).isNone)
   Json.mkObj [
     ("trace", jArr (r.trace.map eventJson)),
     ("out", outJson r.out),
@@ -134,7 +149,9 @@ def runChecker (c : CheckerCase) : Json :=
     ("pre", jArr (ck.pre.map fun g => jArr (g.map fun c => jNat c.id))),
     ("snaps", jArr (ck.snaps.map fun s => jNat s.id)),
     ("posts", jArr (ck.posts.map fun c => jNat c.id)),
-    ("spec", Json.mkObj [("dnfHolds", boolJson dnf), ("totalPre", boolJson total)])
+    ("spec", Json.mkObj [("dnfHolds", boolJson dnf), ("totalPre", boolJson total), ("callOk", boolJson callOk), ("capTotal", boolJson capTotal),
+      ("expectedErr", expectedErr), ("falsyErrorInvolved", boolJson falsyErr),
+      ("earlierGroupErrorNotTotal", boolJson errNotTotal)])
   ]
 
 def handle (line : String) : String :=
